@@ -59,6 +59,7 @@ type pathState struct {
 	inputs    []inputVar
 	nameCount map[string]int
 	choices   map[string]string // Choice inputs (name -> value) for replay files
+	concrete  map[*term]uint64  // values chosen by concretize on this path
 
 	steps     int64
 	maxSteps  int64
@@ -86,6 +87,7 @@ func newPathState(prefix []Decision, maxSteps int64) *pathState {
 		pcSet:     map[*term]bool{},
 		nameCount: map[string]int{},
 		choices:   map[string]string{},
+		concrete:  map[*term]uint64{},
 		reached:   map[string]bool{},
 		counters:  map[string]int64{},
 		maxSteps:  maxSteps,
@@ -194,7 +196,7 @@ func (i *interpreter) checkStrong(extra *term, wantModel bool) (satResult, map[s
 	}
 	t0 := time.Now()
 	defer func() { i.stats.NanosFB += int64(time.Since(t0)) }()
-	for _, cmd := range fallbackCmds(i.cfg.FallbackTimeoutMs) {
+	for _, cmd := range fallbackCmds(i.slv.kind, i.cfg.FallbackTimeoutMs) {
 		i.stats.Fallbacks++
 		r, m, q := oneShot(cmd, i.tc, terms, mv, time.Duration(i.cfg.FallbackTimeoutMs)*time.Millisecond)
 		if d := os.Getenv("VERIF_DUMP_SMT"); d != "" {
@@ -289,6 +291,9 @@ func (i *interpreter) concretize(t *term, signed bool, max int, why string) uint
 	}
 	p := i.path
 	c := i.tc
+	if v, ok := p.concrete[t]; ok {
+		return v
+	}
 	for n := 0; ; n++ {
 		if n >= max {
 			i.incomplete(fmt.Sprintf("concretisation of %s exceeds %d values", why, max))
@@ -302,6 +307,7 @@ func (i *interpreter) concretize(t *term, signed bool, max int, why string) uint
 			eq := c.eq(t, c.konst(t.s, v))
 			if d.Side {
 				i.addPC(eq)
+				p.concrete[t] = v
 				return v
 			}
 			i.addPC(c.not(eq))
@@ -325,6 +331,7 @@ func (i *interpreter) concretize(t *term, signed bool, max int, why string) uint
 			p.dec = append(p.dec, Decision{Side: true, Forced: true, Val: v})
 			p.pos++
 			i.addPC(eq)
+			p.concrete[t] = v
 			return v
 		}
 		alt := append(append([]Decision{}, p.dec...), Decision{Side: false, Val: v})
@@ -332,6 +339,7 @@ func (i *interpreter) concretize(t *term, signed bool, max int, why string) uint
 		p.dec = append(p.dec, Decision{Side: true, Val: v})
 		p.pos++
 		i.addPC(eq)
+		p.concrete[t] = v
 		return v
 	}
 }
